@@ -5,9 +5,11 @@ yaml-paths) the phase machine Args -> Validate -> (Load | Work)* -> Output -> Ex
 function; `Work` consumes an abstract library outcome, `Codes` is the exit-code table read off the
 main() functions, the delivery (file / stdin) is visible to the Load step alone.
   * MC_YCli: TLC explores every run over the finite outcome space, checks the exit-code statements
-    (get 0 <=> matched, diff 0 <=> same, validate 0 / 2 / 1, merge and set codes, paths) both on the state and
-    on the events of the run, that a failing run delivers no result document, delivery independence (the twin run with file and stdin exchanged ends in
-    the same state), determinism and progress, and emits the table (exit code per outcome class).
+    (get 0 <=> matched, diff 0 <=> same, validate 0 / 2 / 1, merge and set codes, paths) both on the state
+    and on the events of the run, that a failing run delivers no result document, delivery independence
+    (the twin run with file and stdin exchanged ends in the same state), determinism and progress, and
+    emits the table (exit code per outcome class).  The deviating design "the status of the last source
+    wins" (MC_YCli_lastwins.cfg) must be refuted.
   * Binding S->C: the cases of the library-level models - MC_Query (C01) -> yaml-get and the unmatched
     yaml-set runs, MC_Edit (C03/C04/C09) -> yaml-set, MC_Merge (C05) -> yaml-merge and the document pairs of
     yaml-diff - are pushed through the REAL main() functions (harness/cliobs.py: in-process, patched argv /
@@ -86,7 +88,7 @@ def get_specs(corpus, rng, count, quick, seed):
         for c in cases:
             cls = "yperr" if c["err"] else ("matched" if c["n"] > 0 else "unmatched")
             groups.setdefault((c["ty"], cls, bool(c["info"])), []).append((doc, c))
-    ncases = max(1, count // (4 if quick else 8))
+    ncases = max(1, count // (4 if quick else 6))
     verdict = {k: v for k, v in groups.items() if not k[2]}
     inform = {k: v for k, v in groups.items() if k[2]}
     picked = _round_robin(verdict, rng, ncases - ncases // 8) + _round_robin(inform, rng, ncases // 8)
